@@ -58,6 +58,27 @@ PROPS = {
                '(inside ed25519-dalek / p256), secp256r1 public-key and signature decoding (SEC1 / DER parsers of the p256 crate)',
         'level_text': 'Guards and dispatch only: bounded symbolic execution of the length / algorithm checks in front of the cryptographic decoders.',
     },
+    'C03': {
+        'crate': 'biscuit-auth',
+        'quick': [r'c03_trust_\w+'],
+        'thorough': [],
+        'cap': {'quick': 400, 'thorough': 1200},
+        'functions': ['datalog::origin::TrustedOrigins::{default,from_scopes,contains}', 'datalog::origin::Origin::{insert,is_superset}'],
+        'bounds': 'scope lists of length 0..3 over {authority, previous, key 0..2}; current block in 0..=5 or the authorizer; 3 keys signing 1, 2 and 0 blocks (ids 1..=5, symbolic); '
+                  'probe origins of one and two block ids; unwind 9',
+        'out': 'the end-to-end comparison authorize(token) vs authorize(token + block); provenance of rule application (Rule::apply) and the visibility filter; loading of blocks into the authorizer',
+        'level_text': 'Kernel lemma of the attenuation argument: bounded symbolic execution of the trust computation against an independent bit-mask specification; the composition to whole authorizations is an argument in DESIGN.md, not a solver result.',
+    },
+    'C10': {
+        'crate': 'biscuit-auth',
+        'quick': [r'c10_\w+'],
+        'thorough': [],
+        'cap': {'quick': 400, 'thorough': 1200},
+        'functions': ['token::authorizer::Authorizer::{run,authorize,authorize_with_limits,authorize_inner}', 'time::Instant arithmetic'],
+        'bounds': 'empty authorizer (no facts, rules, checks, policies); iterations spent, iteration/fact budgets: any u64; time budget and time spent: any Duration; clock: arbitrary non-decreasing instants',
+        'stubs': ['crate::time::Instant::now (arbitrary non-decreasing instants)', 'alloc::fmt::format'],
+        'out': 'accounting inside World::run_with_limits on non-empty programs, promptness, fact budget on growth',
+    },
 }
 
 
